@@ -244,6 +244,16 @@ impl Network {
                 );
                 return;
             }
+            if matches!(peer.peer_status, PeerStatus::Connected) && peer.challenge_for_peer.is_none()
+            {
+                // the handshake of this connection is complete and nothing is outstanding: a further
+                // response (a replay of the one that completed it, say) answers nothing and changes nothing
+                warn!(
+                    "peer {:?} sent a handshake response that answers no challenge. ignoring",
+                    peer_index
+                );
+                return;
+            }
             let result = peer
                 .handle_handshake_response(
                     response,
